@@ -176,13 +176,8 @@ func injectVoids(c *Case, r *Rng, pct int) *Case {
 			// a statement, not a list construct
 			return args
 		}
-		if api == "Values" {
-			for _, a := range args {
-				if _, isD := a.(*Dict); isD {
-					return args // a Dict must stay alone in Values
-				}
-			}
-		}
+		// (Values holding a Dict included: nil and null items are not "other items" beside the
+		// Dict — D15)
 		var out []Arg
 		for _, a := range args {
 			for r.Chance(pct) {
